@@ -99,3 +99,39 @@ func VerifC38relayproof() {
 	v.Assert(d.Token.Version == m.Token.Version && d.Token.ApplicationPublicKey == m.Token.ApplicationPublicKey && d.Token.ClientPublicKey == m.Token.ClientPublicKey && d.Token.ApplicationSignature == m.Token.ApplicationSignature, "token-round-trips")
 	v.Assert(v.And(d.Entropy == m.Entropy, d.SessionBlockHeight == m.SessionBlockHeight), "integers-round-trip")
 }
+
+//verif:config VerifC38challenge maxsymlen=64
+
+// VerifC38challenge: the other evidence leaf type. ChallengeProofInvalidData with 0..2 majority
+// responses (each with an arbitrary 1-byte response and signature and a distinct entropy in its
+// proof), a minority response and a reporter address: element order, count and every field
+// survive the generated Marshal/Unmarshal, and the re-encoding is identical.
+func VerifC38challenge() {
+	seq := int64(0)
+	resp := func() RelayResponse {
+		seq++
+		return RelayResponse{Signature: string(v.Bytes(1)), Response: string(v.Bytes(1)),
+			Proof: RelayProof{Entropy: seq, SessionBlockHeight: 5, ServicerPubKey: "d1", Blockchain: "0001", Token: AAT{Version: "0.0.1"}}}
+	}
+	var m ChallengeProofInvalidData
+	n := v.Choice(3)
+	for i := 0; i < n; i++ {
+		m.MajorityResponses = append(m.MajorityResponses, resp())
+	}
+	m.MinorityResponse = resp()
+	m.ReporterAddress = sdk.Address(v.Bytes(2))
+	bz, err := m.Marshal()
+	v.Assert(err == nil, "encodes")
+	var d ChallengeProofInvalidData
+	v.Assert(d.Unmarshal(bz) == nil, "decodes")
+	same := func(a, b RelayResponse) bool {
+		return a.Signature == b.Signature && a.Response == b.Response && a.Proof.Blockchain == b.Proof.Blockchain && a.Proof.Token.Version == b.Proof.Token.Version && a.Proof.Entropy == b.Proof.Entropy
+	}
+	v.Assert(len(d.MajorityResponses) == n, "list-length-round-trips")
+	for i := 0; i < n && i < len(d.MajorityResponses); i++ {
+		v.Assert(same(d.MajorityResponses[i], m.MajorityResponses[i]), "list-elements-round-trip-in-order")
+	}
+	v.Assert(same(d.MinorityResponse, m.MinorityResponse) && bytes.Equal(d.ReporterAddress, m.ReporterAddress), "other-fields-round-trip")
+	bz2, _ := d.Marshal()
+	v.Assert(bytes.Equal(bz, bz2), "re-encoding-is-identical")
+}
